@@ -75,7 +75,11 @@ class PDFParser(PSStackParser[Union[PSKeyword, PDFStream, PDFObjRef, None]]):
 
         elif token is self.KEYWORD_STREAM:
             # stream object
-            ((_, dic),) = self.pop(1)
+            objs = self.pop(1)
+            if not objs:
+                # the keyword without the stream dictionary in front of it
+                return
+            ((_, dic),) = objs
             dic = dict_value(dic)
             objlen = 0
             if not self.fallback:
@@ -84,6 +88,8 @@ class PDFParser(PSStackParser[Union[PSKeyword, PDFStream, PDFObjRef, None]]):
                 except KeyError:
                     if settings.STRICT:
                         raise PDFSyntaxError("/Length is undefined: %r" % dic)
+                if objlen < 0:
+                    objlen = 0
             self.seek(pos)
             try:
                 (_, line) = self.nextline()  # 'stream'
@@ -92,6 +98,10 @@ class PDFParser(PSStackParser[Union[PSKeyword, PDFStream, PDFObjRef, None]]):
                     raise PDFSyntaxError("Unexpected EOF")
                 return
             pos += len(line)
+            # a /Length beyond the end of the file is damage: never ask for
+            # more than the file holds
+            self.fp.seek(0, 2)
+            objlen = min(objlen, max(self.fp.tell() - pos, 0))
             self.fp.seek(pos)
             data = bytearray(self.fp.read(objlen))
             self.seek(pos + objlen)
